@@ -324,11 +324,15 @@ func (g *gen) sPcall(fc *fctx, x bool) []Stmt {
 			&Call{Fn: Var{"emit"}, Args: []Expr{Str{hn}, Var{ep}, Bin{">=", Bin{"-", Var{dn}, Var{d0}}, Num{2}}}},
 		}
 		var hret Expr = Var{ep}
-		switch g.ch(3) {
+		switch g.ch(4) {
 		case 0:
 			hret = Str{"H" + hn}
 		case 1:
 			hret = Num{float64(g.ch(50))}
+		case 2:
+			// a handler that itself fails for error values that are not strings or numbers
+			g.use("handler_may_fail")
+			hret = Bin{"..", Str{"H."}, Var{ep}}
 		}
 		hbody = append(hbody, &Return{Exprs: []Expr{hret}})
 		hd := &FuncDef{ID: g.prog.NFuncs, Params: []string{ep}, Body: hbody}
